@@ -807,8 +807,6 @@ def cases(tier, seed):
         add("idxmap", shape=shape, host="HVAR", part=90, reps=2, big=1)
     for count in ((65535, 65536, 65537) if T_ else (65536,)):
         add("idxmap", shape="random", host="COLR", part=91, reps=1, count=count)
-    if T_:
-        add("idxmap", shape="trailing_run", host="HVAR", part=92, reps=1, count=65535)
     for part in range(P):
         add("dicttables", part=part, reps=6 * R)
     for shape in GV.FVAR_SHAPES:
